@@ -29,7 +29,9 @@ class DepResult:
     external: set[str] = field(default_factory=set)
     visited: set[str] = field(default_factory=set)
     def_nodes: set[int] = field(default_factory=set)
+    def_vars: set[tuple[int, str]] = field(default_factory=set)  # (CFG node, variable) of every followed definition
     calls: list[ast.Call] = field(default_factory=list)  # calls met while following definitions
+    sources: list[tuple[int, ast.AST]] = field(default_factory=list)  # (CFG node, expression) contributing
 
     def depends_on(self, name: str) -> bool:
         return name in self.params or name in self.external
@@ -115,6 +117,7 @@ class Deps:
         res = DepResult()
         seen: set[tuple[int, str]] = set()
         work: list[tuple[int, str]] = [(node_idx, v) for v in uses_of(expr, df.selfname)]
+        res.sources.append((node_idx, expr))
         for c in ast.walk(expr):
             if isinstance(c, ast.Call):
                 res.calls.append(c)
@@ -136,7 +139,9 @@ class Deps:
                 if srcs is None:
                     continue
                 res.def_nodes.add(d.node)
+                res.def_vars.add((d.node, var))
                 for s in srcs:
+                    res.sources.append((d.node, s))
                     for c in ast.walk(s):
                         if isinstance(c, ast.Call):
                             res.calls.append(c)
